@@ -4,6 +4,8 @@ package conditions
 
 // Contracts read by the verification engine in /verif (govc). Comment-only file.
 //
+//@ import v1 "github.com/DataDog/extendeddaemonset/api/v1alpha1"
+//@
 //@ func GetIndexForConditionType
 //@   pure
 //@   reads *status, elems(status.Conditions)
@@ -41,6 +43,15 @@ package conditions
 //@             && status.Conditions[old(len(status.Conditions))].Status == conditionStatus
 //@   ensures untouched-when-false-and-absent: idx < 0 && !(conditionStatus == "True" || writeFalseIfNotExist) ==> status.Conditions == old(status.Conditions)
 //@   ensures backing: root(status.Conditions) == old(root(status.Conditions)) || freshroot(status.Conditions)
+//@   ensures [C06,C14] reflects-status: IsConditionTrue(status, t) <==> conditionStatus == "True"
+//@   ensures other-types-kept: forall u v1.ExtendedDaemonSetReplicaSetConditionType :: u != t ==>
+//@             (GetIndexForConditionType(status, u) >= 0 <==> old(GetIndexForConditionType(status, u)) >= 0)
+//@             && (GetIndexForConditionType(status, u) >= 0 ==> status.Conditions[GetIndexForConditionType(status, u)].Status
+//@                   == old(status.Conditions[GetIndexForConditionType(status, u)].Status)
+//@                 && status.Conditions[GetIndexForConditionType(status, u)].LastTransitionTime.Time
+//@                   == old(status.Conditions[GetIndexForConditionType(status, u)].LastTransitionTime.Time)
+//@                 && status.Conditions[GetIndexForConditionType(status, u)].LastUpdateTime.Time
+//@                   == old(status.Conditions[GetIndexForConditionType(status, u)].LastUpdateTime.Time))
 //@   ensures other-entries-kept: forall i int :: 0 <= i && i < old(len(status.Conditions)) && i != idx ==>
 //@             status.Conditions[i].Type == old(status.Conditions[i].Type) && status.Conditions[i].Status == old(status.Conditions[i].Status)
 //@             && status.Conditions[i].LastTransitionTime.Time == old(status.Conditions[i].LastTransitionTime.Time)
